@@ -87,6 +87,38 @@ def _shift_block(blk, loff, boff):
             t["unwind"] += boff
 
 
+import re
+_PROM = re.compile(r"promoted\[(\d+)\]$")
+
+
+def _tag_op(op, fnpath):
+    if isinstance(op, dict) and op.get("k") == "const" and "prom" not in op:
+        m = _PROM.search(op.get("desc") or "")
+        if m:
+            op["prom"] = [fnpath, int(m.group(1))]
+
+
+def tag_promoted(blocks, fnpath):
+    """Mark references to promoted constants with the function whose promoted body defines them."""
+    for blk in blocks:
+        for s in blk["stmts"]:
+            if s["k"] == "assign":
+                rv = s["rv"]
+                for key in ("op", "a", "b"):
+                    if key in rv:
+                        _tag_op(rv[key], fnpath)
+                for o in rv.get("ops", []):
+                    _tag_op(o, fnpath)
+        t = blk["term"]
+        if t["k"] == "call":
+            for a in t["args"]:
+                _tag_op(a, fnpath)
+        elif t["k"] == "switch":
+            _tag_op(t["discr"], fnpath)
+        elif t["k"] == "assert":
+            _tag_op(t["cond"], fnpath)
+
+
 class Inliner:
     def __init__(self, facts, keep=()):
         self.facts = facts
@@ -142,12 +174,19 @@ class Inliner:
         self._cur = fn.path
         locals_ = copy.deepcopy(fn.locals)
         blocks = copy.deepcopy(fn.blocks)
+        tag_promoted(blocks, fn.path)
         prov = [(fn.path, i, ()) for i in range(len(blocks))]
         work = [(i, (fn.path,), None) for i in range(len(blocks))]
         # worklist of (block index, chain, self_subst)
         while work:
             b, chain, self_subst = work.pop()
             t = blocks[b]["term"]
+            if t["k"] == "drop" and not t.get("glue_only"):
+                nb = self._expand_local_drop(b, t, locals_, blocks)
+                if nb is not None:
+                    prov.append((prov[b][0], prov[b][1], prov[b][2]))
+                    work.append((b, chain, self_subst))
+                continue
             if t["k"] != "call":
                 continue
             self._propagate_types(locals_, blocks)
@@ -172,6 +211,7 @@ class Inliner:
             boff = len(blocks)
             new_locals = copy.deepcopy(target_fn.locals)
             new_blocks = copy.deepcopy(target_fn.blocks)
+            tag_promoted(new_blocks, target_fn.path)
             for nb in new_blocks:
                 _shift_block(nb, loff, boff)
             span = {k: t.get(k) for k in ("file", "line", "exp", "macro")}
@@ -229,6 +269,44 @@ class Inliner:
         out.prov = prov
         out.inlined = True
         return out
+
+    # ------------------------------------------------ Drop impls of the crate's own types
+    HANDLES = ("cactusref::rc::Rc", "cactusref::rc::Weak")
+
+    def _expand_local_drop(self, b, t, locals_, blocks):
+        """`drop(place: X)` where X is a type of the analysed crate with its own Drop impl (other than
+        the handle types, whose drop re-enters the library and is modelled as an event): call
+        <X as Drop>::drop(&mut place), then run the drop glue of the fields."""
+        ty = t["ty"]
+        adt = ty.get("adt")
+        if not adt or ty.get("peel", 0) != 0 or not adt.startswith(self.facts.crate + "::") or adt in self.HANDLES or not ty.get("dtor"):
+            return None
+        impl = None
+        for f in self.facts.fns.values():
+            if f.f.get("impl_trait") == "core::ops::Drop" and f.name == "drop" and (f.f.get("impl_self") or {}).get("adt") == adt:
+                impl = f
+        if impl is None:
+            return None
+        span = {k: t.get(k) for k in ("file", "line", "exp", "macro")}
+        rl = len(locals_)
+        locals_.append({"ty": {"s": "&mut " + ty.get("s", "?"), "k": "refmut", "adt": adt, "peel": 1, "hp": ty.get("hp"), "nd": False, "dp": 0}, "name": None})
+        ul = len(locals_)
+        locals_.append({"ty": {"s": "()", "k": "tuple", "hp": False, "nd": False, "dp": 0}, "name": None})
+        glue = dict(t)
+        glue["glue_only"] = True
+        gty = dict(ty)
+        gty["dp"] = ty.get("dpf", ty.get("dp", 0))
+        gty["dtor"] = False
+        glue["ty"] = gty
+        nb = len(blocks)
+        blocks.append({"cleanup": blocks[b]["cleanup"], "stmts": [], "term": glue})
+        blocks[b]["stmts"].append({"k": "assign", "dst": {"l": rl, "p": []}, "rv": {"k": "ref", "mut": True, "pl": copy.deepcopy(t["pl"])}, **span})
+        callee = {"def": "core::ops::Drop::drop", "full": "<%s as core::ops::Drop>::drop" % ty.get("s"), "crate": "core", "args": [], "targs": [], "local": False,
+                  "trait": "core::ops::Drop", "self_ty": ty, "resolved": impl.path, "rk": "item", "resolved_crate": self.facts.crate}
+        blocks[b]["term"] = {"k": "call", "callee": callee, "fnop": {"k": "const", "ty": {"s": "fn", "k": "fndef"}, "desc": "drop"},
+                             "args": [{"k": "move", "pl": {"l": rl, "p": []}}], "argtys": [locals_[rl]["ty"]], "dst": {"l": ul, "p": []},
+                             "target": nb, "unwind": t["unwind"], **span, "drop_impl_of": adt}
+        return nb
 
     # ------------------------------------------------ library adaptors
     # Option/Result combinators taking a closure are expanded into the
